@@ -382,7 +382,9 @@ impl Ord for Iri {
 
 impl Hash for Iri {
 	fn hash<H: hash::Hasher>(&self, state: &mut H) {
-		self.parts().hash(state)
+		// Must agree with the `Hash` implementation of the reference type,
+		// since this type implements `Borrow` to it.
+		self.as_iri_ref().hash(state)
 	}
 }
 
